@@ -8,6 +8,7 @@ and read_data.
 """
 import contextlib
 import io
+import os
 import shutil
 
 import numpy as np
@@ -231,6 +232,75 @@ def et_args_case(task):
     return bad
 
 
+def name_helper_cases():
+    """The public name-translation helpers of the reading module leave the
+    list they are given untouched (and so give the same answer twice)."""
+    from aurel import reading
+    bad = []
+    lists = [['betax', 'betay', 'betaz', 'alp', 'gxx'],
+             ['gxx', 'gxy', 'gxz', 'gyy', 'gyz', 'gzz', 'rho', 'vel[0]'],
+             ['alpha', 'betaup3', 'gammadown3', 'rho0'], []]
+    for fn in (reading.transform_vars_ET_to_aurel_groups,
+               reading.transform_vars_aurel_to_ET,
+               reading.transform_vars_tensor_to_scalar):
+        for L in lists:
+            arg = list(L)
+            try:
+                with quiet():
+                    first = fn(arg)
+                    first = list(first) if first is not None else None
+                    again = fn(arg)
+                    again = list(again) if again is not None else None
+            except Exception as ex:      # noqa: BLE001
+                bad.append((fn.__name__, 'raised', repr(ex)[:100]))
+                continue
+            if arg != L:
+                bad.append((fn.__name__, 'argument-modified',
+                            f'{L} -> {arg}'))
+            elif sorted(map(str, first)) != sorted(map(str, again)):
+                bad.append((fn.__name__, 'second-call-differs', str(L)))
+    return bad
+
+
+def two_thorn_case():
+    """One variable name written by two thorns into the same file: the
+    reader disambiguates by thorn, without rewriting its `variables`
+    argument (a list from the caller, or the tuple key of the catalogue)."""
+    import h5py
+    from aurel import reading
+    root = runner.scratch_root()
+    bad = []
+    try:
+        os.makedirs(root, exist_ok=True)
+        fname = os.path.join(root, 'gxx.h5')
+        with h5py.File(fname, 'w') as f:
+            for thorn, val in (('ADMBASE', 1.0), ('ML_BSSN', 2.0)):
+                ds = f.create_dataset(f'{thorn}::gxx it=0 tl=0 rl=0',
+                                      data=np.full((4, 4, 4), val))
+                ds.attrs['cctk_nghostzones'] = np.array([1, 1, 1])
+                ds.attrs['iorigin'] = np.array([0, 0, 0])
+                ds.attrs['time'] = 0.0
+        for variables in (['gxx'], ('gxx',)):
+            before = list(variables)
+            try:
+                with quiet():
+                    out = reading.read_ET_group_or_var(
+                        variables, [fname], 'in file', it=[0])
+            except Exception as ex:      # noqa: BLE001
+                bad.append(('read_ET_group_or_var', 'raised:'
+                            + type(variables).__name__, repr(ex)[:120]))
+                continue
+            if list(variables) != before:
+                bad.append(('read_ET_group_or_var', 'argument-modified',
+                            f'{before} -> {list(variables)}'))
+            for k, val in (('ADMBASE::gxx', 1.0), ('ML_BSSN::gxx', 2.0)):
+                if k not in out or not np.all(np.asarray(out[k][0]) == val):
+                    bad.append(('read_ET_group_or_var', 'two-thorns', k))
+    finally:
+        shutil.rmtree(root, ignore_errors=True)
+    return bad
+
+
 def plans(tier, seed):
     keys = cc.all_keys()
     full = keys + cc.HELPERS
@@ -321,6 +391,12 @@ def main(tier):
             run.violation(f"C02:{b[0]}:argument-modified:{b[1]}"
                           if b[0] != 'raised' else "C02:et-io-raised",
                           f"Einstein Toolkit read {t}: {b}", {'et_io': list(t)})
+    for b in runner.in_child(two_thorn_case):
+        run.violation(f"C02:{b[0]}:{b[1]}", f"{b}"[:300],
+                      {'two_thorn': b[1]})
+    for b in runner.in_child(name_helper_cases):
+        run.violation(f"C02:{b[0]}:{b[1]}", f"{b}"[:300],
+                      {'name_helper': b[0]})
     run.sample({'history': ['st_Riemann_down4', 'st_Weyl_down4'],
                 'watched': 'all inputs + every object returned so far, '
                            're-digested after each request'})
